@@ -163,6 +163,9 @@ impl Property for C05 {
         c
     }
     fn generate(&self, rng: &mut Rng, _tier: Tier) -> Scenario {
+        if rng.chance(1, 25) {
+            return late_type(rng);
+        }
         let mut h = crate::rng::Fnv::default();
         let nchildren = rng.usize(4);
         let mut children: Vec<Child> = Vec::new();
@@ -437,11 +440,59 @@ impl Property for C05 {
         }
     }
     fn monitor(&self, scn: &Scenario) -> Box<dyn Monitor + Send> {
+        if scn.expect.get("late_type").is_some() {
+            return Box::new(crate::run::NoMonitor);
+        }
         let e: Expect = serde_json::from_value(scn.expect.clone()).expect("c05 expect");
         Box::new(SelMonitor::new(e))
     }
-    fn judge(&self, _scn: &Scenario, _refdata: Option<&RefData>, _r: &RunResult) -> Vec<Violation> {
-        Vec::new()
+    fn judge(&self, scn: &Scenario, _refdata: Option<&RefData>, r: &RunResult) -> Vec<Violation> {
+        let mut v = Vec::new();
+        if let Some(want) = scn.expect.get("late_type").and_then(|x| x.as_str()) {
+            match r.outs.last() {
+                Some(crate::client::Out::Value(s)) if s == want => {}
+                other => v.push(Violation::new("C05", "yield", "message-of-later-registered-type-not-taken", format!("the session yielded {:?}, expected {want}: every select's message was in the mailbox long before its timeout", other), r.steps)),
+            }
+        }
+        v
+    }
+}
+
+/// Receive sources whose type is open to concrete types that do not exist yet when the receiver
+/// starts - a partial type, a process type, a function type - and messages of types first created on
+/// a LATER REPL line: "a receive source yields the earliest mailbox message of its type" also when
+/// the type is younger than the receiver. Each select has a long timeout, so a message wrongly
+/// passed over shows as a nil yield (value 0), not as a hang.
+fn late_type(rng: &mut Rng) -> Scenario {
+    let mut h = crate::rng::Fnv::default();
+    h.u64(0x1a7e7);
+    let x = rng.range(1, 90);
+    let k = rng.range(1, 40);
+    let order = rng.usize(2);
+    h.u64(order as u64);
+    let subject = "p = @#{ a = ! [#(x: 'int), 5000] { | =[] => 0 | =m => m.x }, b = ! [#(@'int), 5000] { | =[] => 0 | =q => { 5 q, 1 } }, f = ! [#(#'int -> 'int), 5000] { | =[] => 0 | =g => 7 g }, [a, b, f] }, Ok";
+    let mut later = vec![format!("B[x: {x}, z: 0x00] p"), "c = @#{ !#'int }, &c p".to_string(), format!("inc = #'int {{ [~, {k}] __integer_add__ }}, &inc p")];
+    if order == 1 {
+        // all on one later line
+        later = vec![later.join(", ")];
+    }
+    let mut ops = vec![ClientOp::Line { session: 0, src: subject.to_string() }];
+    for l in later {
+        ops.push(ClientOp::Line { session: 0, src: l });
+    }
+    ops.push(ClientOp::Line { session: 0, src: "[!p, !c]".to_string() });
+    Scenario {
+        family: "c05-late-type".into(),
+        ops,
+        modules: vec![],
+        files: Default::default(),
+        timing: true,
+        io: false,
+        fixed_faults: Default::default(),
+        expect: serde_json::json!({ "late_type": format!("[[{x}, 1, {}], 5]", 7 + k) }),
+        shape: h.0,
+        est_len: 150,
+        min_quantum: 0,
     }
 }
 
